@@ -11,7 +11,7 @@ from ..core.findings import Report
 from ..core.loader import Repo
 from . import c20, graphnative
 from .c06 import incidence
-from .encodings import GRAPHS, LAST_MATCH, Canon, Instance, RefArray, compare, projection
+from .encodings import work_now, GRAPHS, LAST_MATCH, Canon, Instance, RefArray, compare, projection
 from .graphnative import GRAPH
 
 SMALL = [g for g in GRAPHS if g[1] <= 4] + [("triangle with tail", 4, [(0, 1), (1, 2), (0, 2), (2, 3)])]
@@ -173,10 +173,10 @@ def run(repo: Repo, rep: Report) -> None:
     if n_ok >= 0 and not deviating:
         rep.ok("ENC-S", f"division_connected_variable_groups: reference schema on {n_ok} (graph, group_size) instances, group ids returned", points=n_ok)
         rep.rule("ENC-X", "on the small instances the set of partitions realisable by the group ids equals the set of valid partitions (guards the reference schema; can only add violations)")
-        t0 = time.time()
+        t0 = work_now()
         checked = 0
         for desc, inst, ids, szl, n, edges in xitems:
-            if time.time() - t0 > 10:
+            if work_now() - t0 > 10:
                 break
             proj = projection(inst, ids, budget_s=2.5)
             if proj is None:
@@ -286,7 +286,7 @@ def run(repo: Repo, rep: Report) -> None:
 
 def _triage(rep: Report, label: str, devs: List[Any], with_borders: bool) -> None:
     undecided = None
-    t0 = time.time()
+    t0 = work_now()
     def has_sizes(d: Any) -> int:
         return 0 if (isinstance(d[5], (int, tuple)) or (d[5] and any(x is not None for x in d[5]))) else 1
 
@@ -298,7 +298,7 @@ def _triage(rep: Report, label: str, devs: List[Any], with_borders: bool) -> Non
 
     # instances with the caller's own size variables are the most expensive to project: they are tried last
     for desc, n, edges, inst, diff, sizes, ret_ids in sorted(devs, key=lambda d: (symbolic(d), cyclic_first(d) if len(devs) > 20 else 1, d[1], has_sizes(d), len(d[2]))):
-        if time.time() - t0 > 60:
+        if work_now() - t0 > 60:
             break
         symbolic = isinstance(sizes, tuple) or (isinstance(sizes, list) and any(isinstance(x, tuple) for x in sizes))
         if symbolic and not with_borders:
